@@ -143,8 +143,62 @@ Definition case_box (a : list Q) : list Q :=
   let q' : qquat := (g a 19, g a 20, g a 21, g a 22) in
   oq q ++ ov (fst (side_point Qo pos q' dims (side_of (code a 18)))) ++ ovs (corners Qo pos q' dims).
 
+(* kind 8 — facing <field> (optionally composed with a heading/orientation by `relative to`).
+   in : 0 parentOrientation as stored (4) | 4 F(pos) (6) | 10 H (6)
+        | 16 mode (0 plain, 1 `H relative to F` = F*H, 2 `F relative to H` = H*F)
+        | 17 local angles the implementation chose (6)
+   out: target q (4) | parent * (parent^-1 * target) (4) | parent * fromEuler(local) (4) *)
+Definition case_facing_field (a : list Q) : list Q :=
+  let parent : qquat := (g a 0, g a 1, g a 2, g a 3) in let f := ge a 4 in let h := ge a 10 in
+  let F : qvec -> qquat := fun _ => f in let Hf : qvec -> qquat := fun _ => h in
+  let T : qvec -> qquat :=
+    match code a 16 with O => F | S O => relative_to_field Qo Hf F | _ => relative_to_field Qo F Hf end in
+  oq (T z3) ++ oq (facing_field_orientation Qo parent T z3)
+  ++ oq (orientation_of Qo parent (ga a 17) (ga a 19) (ga a 21)).
+
+(* kind 9 — X offset along <field> by V, for two base points.
+   in : 0 X1 (3) | 3 F(X1) (6) | 9 X2 (3) | 12 F(X2) (6) | 18 V (3)   out: position 1 (3) | position 2 (3) *)
+Definition case_along_field (a : list Q) : list Q :=
+  let f1 := ge a 3 in let f2 := ge a 12 in
+  ov (offset_along_field Qo (gv a 0) (fun _ => f1) (gv a 18))
+  ++ ov (offset_along_field Qo (gv a 9) (fun _ => f2) (gv a 18)).
+
+(* kind 10 — following F [from X] for D.
+   in : 0 X (3) | 3 step | 4 n | 5 F at the final position (6) | 11.. F at the n visited positions (6 each)
+   out: final position (3) | parentOrientation (4) *)
+Fixpoint ges (a : list Q) (i n : nat) : list qquat :=
+  match n with O => [] | S n' => ge a i :: ges a (6 + i) n' end.
+Definition case_following (a : list Q) : list Q :=
+  ov (follow_rec Qo (ges a 11 (code a 4)) (g a 3) (gv a 0)) ++ oq (ge a 5).
+
+(* kind 11 — on <Object>: invariants of the placement, from the stored poses.
+   in : 0 X pose (15) | 15 X dims (3) | 18 X q as stored (4) | 22 new position as stored (3)
+        | 25 new q as stored (4) | 29 new dims (3)
+   out: X q (4) | gap along X's up axis between the corner sets (1) | new centre in X's frame (3)
+        | up axis of the new object minus up axis of X (3) *)
+Definition case_on_object (a : list Q) : list Q :=
+  let '(xpos, _, xq) := gpose a 0 in
+  let xq' : qquat := (g a 18, g a 19, g a 20, g a 21) in
+  let np := gv a 22 in let nq : qquat := (g a 25, g a 26, g a 27, g a 28) in
+  let cx := corners Qo xpos xq' (gv a 15) in let cn := corners Qo np nq (gv a 29) in
+  oq xq ++ [gap_along Qo xpos xq' DAbove cx cn] ++ ov (to_local Qo xpos xq' np)
+  ++ ov (vsub Qo (rotate Qo nq (ez Qo)) (rotate Qo xq' (ez Qo))).
+
+(* kind 12 — on <vector> / on <oriented region> / in <oriented region>.
+   in : 0 surface point (3) | 3 surface orientation (6) | 9 contactTolerance | 10 baseOffset (3)
+        | 13 mode (0 `on` without orientation, 1 `on` oriented, 2 `in` oriented: no contact offset)
+   out: position (3) | parentOrientation provided (4; identity when none) *)
+Definition case_on_point (a : list Q) : list Q :=
+  match code a 13 with
+  | O => ov (on_pos_plain Qo (gv a 0) (g a 9) (gv a 10)) ++ oq (qid Qo)
+  | S O => let r := on_pos Qo (gv a 0) (ge a 3) (g a 9) (gv a 10) in ov (fst r) ++ oq (snd r)
+  | _ => ov (gv a 0) ++ oq (ge a 3)
+  end.
+
 Definition run_case (kind : nat) (a : list Q) : list Q :=
   match kind with
   | 1 => case_directional a | 2 => case_beyond a | 3 => case_offset a | 4 => case_facing a
-  | 5 => case_toward a | 6 => case_scalar a | 7 => case_box a | _ => []
+  | 5 => case_toward a | 6 => case_scalar a | 7 => case_box a
+  | 8 => case_facing_field a | 9 => case_along_field a | 10 => case_following a
+  | 11 => case_on_object a | 12 => case_on_point a | _ => []
   end.
